@@ -1665,7 +1665,11 @@ impl NestedLoopJoinStream {
         // side. Other partitions will get the same OnceFut that resolves
         // to the shared spill file.
         let left_spill_fut = left_spill_data.try_once(|| {
-            let plan = Arc::clone(&left_plan);
+            // The left child has already been executed once by the in-memory path.
+            // Operators such as `RepartitionExec` hand out each output partition only
+            // once (a second `execute` of the same partition panics), so re-execute a
+            // copy of the subtree whose per-execution state has been reset.
+            let plan = crate::execution_plan::reset_plan_states(Arc::clone(&left_plan))?;
             let ctx = Arc::clone(&context);
             let spill_metrics = self.metrics.spill_metrics.clone();
             Ok(async move {
